@@ -35,7 +35,16 @@ func generated(L *Loaded, fn *ssa.Function) bool {
 		strings.HasSuffix(f, "_test.go")
 }
 
-var nondetPkgs = map[string]bool{"math/rand": true, "math/rand/v2": true, "crypto/rand": true, "os": true, "runtime": true, "os/exec": true, "net": true, "net/http": true}
+var nondetPkgs = map[string]bool{"math/rand": true, "math/rand/v2": true, "crypto/rand": true, "os": true, "runtime": true, "os/exec": true, "net": true, "net/http": true,
+	// libraries that run the caller's closures on other goroutines: which closure finishes (or fails) first depends on scheduling
+	"golang.org/x/sync/errgroup": true, "golang.org/x/sync/singleflight": true, "golang.org/x/sync/semaphore": true}
+
+// concurrency / timer entry points of the standard library whose effect depends on scheduling or on the wall clock
+var nondetFuncs = map[string]bool{
+	"(*sync.WaitGroup).Go": true, "(*sync.WaitGroup).Add": true, "(*sync.WaitGroup).Wait": true, "(*sync.Cond).Wait": true, "(*sync.Cond).Signal": true, "(*sync.Cond).Broadcast": true,
+	"time.Since": true, "time.Until": true, "time.After": true, "time.Tick": true, "time.NewTimer": true, "time.NewTicker": true, "time.AfterFunc": true, "time.Sleep": true,
+	"context.WithTimeout": true, "context.WithDeadline": true, "context.AfterFunc": true,
+}
 
 func runDiscipline(s *Session, prop string, verified map[string]bool) *DisciplineResult {
 	res := &DisciplineResult{}
@@ -109,7 +118,10 @@ func runDiscipline(s *Session, prop string, verified map[string]bool) *Disciplin
 						}
 						continue
 					}
-					if nondetPkgs[pp] {
+					if nondetPkgs[pp] || nondetFuncs[f.String()] {
+						if v, isVal := in.(ssa.Value); (f.String() == "time.Since" || f.String() == "time.Until") && isVal && onlyTelemetry(v) {
+							continue
+						}
 						bad = append(bad, "calls "+f.String()+" at "+s.L.Fset.Position(in.Pos()).String())
 					}
 					// process-wide memory behind a method call: sync.Map / atomic values held in package-level variables
@@ -320,7 +332,13 @@ func runEventForwarding(s *Session, prop string) *DisciplineResult {
 				if refs := call.Referrers(); refs != nil {
 					for _, r := range *refs {
 						if ex, isEx := r.(*ssa.Extract); isEx && ex.Index == 0 && eventsRead(ex, 0) {
-							okFwd = true
+							// ... and what was read is handed to an event manager: at once, or accumulated with append
+							// (a plain assignment to a loop-carried variable keeps only the last message's events)
+							for _, ev := range eventValues(ex, 0) {
+								if eventsEmitted(ev, false, 0, map[ssa.Value]bool{}) {
+									okFwd = true
+								}
+							}
 						}
 					}
 				}
@@ -329,7 +347,7 @@ func runEventForwarding(s *Session, prop string) *DisciplineResult {
 					Clause: "the events of every message routed by " + short + " are read from its Result (GetEvents) and used", Goal: "true", Result: "unsat", Solver: "ssa-scan"}
 				if !okFwd {
 					o.Result, o.Goal = "sat", "false"
-					o.Model = "the *sdk.Result of the routed handler at " + pos.String() + " is discarded: its events never reach the transaction"
+					o.Model = "the events in the *sdk.Result of the routed handler at " + pos.String() + " are discarded, or overwritten by those of a later message, before they reach an event manager"
 				}
 				res.Obls = append(res.Obls, o)
 			}
@@ -392,6 +410,122 @@ func eventsRead(v ssa.Value, depth int) bool {
 			// stored into a local that is read later: follow the address
 			if a, ok := x.Addr.(ssa.Value); ok && x.Val == v && eventsRead(a, depth+1) {
 				return true
+			}
+		}
+	}
+	return false
+}
+
+// eventValues: the values that hold the events of a routed handler's result (GetEvents() calls, reads of the Events field).
+func eventValues(v ssa.Value, depth int) []ssa.Value {
+	refs := v.Referrers()
+	if refs == nil || depth > 5 {
+		return nil
+	}
+	var out []ssa.Value
+	for _, u := range *refs {
+		switch x := u.(type) {
+		case *ssa.Call:
+			if f := x.Call.StaticCallee(); f != nil && f.Name() == "GetEvents" {
+				out = append(out, x)
+			}
+		case *ssa.FieldAddr:
+			if fieldName(x.X.Type(), x.Field) == "Events" {
+				if rr := x.Referrers(); rr != nil {
+					for _, l := range *rr {
+						if un, ok := l.(*ssa.UnOp); ok && un.Op == token.MUL {
+							out = append(out, un)
+						}
+					}
+				}
+			} else {
+				out = append(out, eventValues(x, depth+1)...)
+			}
+		case *ssa.Field:
+			if fieldName(x.X.Type(), x.Field) == "Events" {
+				out = append(out, x)
+			}
+		case *ssa.UnOp:
+			out = append(out, eventValues(x, depth+1)...)
+		case *ssa.Phi:
+			out = append(out, eventValues(x, depth+1)...)
+		}
+	}
+	return out
+}
+
+// eventsEmitted: the value reaches an Emit* call of an event manager. Through a loop-header phi only after an append
+// (accumulation); an un-appended value in a loop-carried variable is overwritten by the next iteration.
+func eventsEmitted(v ssa.Value, appended bool, depth int, seen map[ssa.Value]bool) bool {
+	if seen[v] || depth > 12 {
+		return false
+	}
+	seen[v] = true
+	refs := v.Referrers()
+	if refs == nil {
+		return false
+	}
+	for _, u := range *refs {
+		switch x := u.(type) {
+		case ssa.CallInstruction:
+			cc := x.Common()
+			if cc.IsInvoke() && strings.HasPrefix(cc.Method.Name(), "Emit") {
+				return true
+			}
+			if f := cc.StaticCallee(); f != nil && strings.HasPrefix(f.Name(), "Emit") {
+				return true
+			}
+			if b, ok := cc.Value.(*ssa.Builtin); ok && b.Name() == "append" && len(cc.Args) == 2 {
+				if val, ok := x.(ssa.Value); ok {
+					if cc.Args[1] == v && eventsEmitted(val, true, depth+1, seen) {
+						return true
+					}
+					if cc.Args[0] == v && eventsEmitted(val, appended, depth+1, seen) {
+						return true
+					}
+				}
+			}
+		case *ssa.Phi:
+			header := false
+			for _, p := range x.Block().Preds {
+				if p.Index >= x.Block().Index {
+					header = true
+				}
+			}
+			if header && !appended {
+				continue
+			}
+			if eventsEmitted(x, appended, depth+1, seen) {
+				return true
+			}
+		case *ssa.Slice:
+			if eventsEmitted(x, appended, depth+1, seen) {
+				return true
+			}
+		case *ssa.ChangeType:
+			if eventsEmitted(x, appended, depth+1, seen) {
+				return true
+			}
+		case *ssa.Convert:
+			if eventsEmitted(x, appended, depth+1, seen) {
+				return true
+			}
+		case *ssa.MakeInterface:
+			if eventsEmitted(x, appended, depth+1, seen) {
+				return true
+			}
+		case *ssa.Store:
+			if x.Val == v {
+				// a variable that lives in memory (captured / address taken): follow its loads
+				if a, ok := x.Addr.(ssa.Value); ok {
+					if rr := a.Referrers(); rr != nil {
+						for _, l := range *rr {
+							if un, ok := l.(*ssa.UnOp); ok && un.Op == token.MUL && eventsEmitted(un, appended, depth+1, seen) {
+								return true
+							}
+						}
+					}
+				}
 			}
 		}
 	}
